@@ -94,7 +94,7 @@ def parse(out):
 
 def run(module, cfg, *, workers=16, simulate=None, depth=None, seed=None, coverage=True,
         timeout=1800, cache=True, env=None, extra=(), deadlock_off=True, keep_out=False,
-        defines=None):
+        defines=None, raw=False):
   """Run TLC on specs/<module>.tla with specs/<cfg> (a file name or literal text).
 
   simulate: None or number of traces (uses -simulate num=N with -depth).
@@ -150,6 +150,8 @@ def run(module, cfg, *, workers=16, simulate=None, depth=None, seed=None, covera
     res['cmd'] = ' '.join(cmd)
     res['module'] = module
     res['cached'] = False
+    if raw:
+      res['stdout'] = out
     if keep_out or not res['ok']:
       i = out.find('Error:')
       if 'Parsing or semantic analysis failed' in out:
